@@ -29,9 +29,12 @@ MODEL = {
         "score": {"type": "Int", "args": {"scale": {"type": "Int", "default": 1}}},
         "scaled": {"type": "Int", "args": {"by": {"type": "Int!"}}},
     }},
-    "Animal": {"kind": "interface", "fields": {"name": {"type": "String"}, "owner": {"type": "User"}}},
-    "Dog": {"kind": "object", "interfaces": ["Node", "Animal"], "fields": {"id": {"type": "ID"}, "name": {"type": "String"}, "barks": {"type": "Boolean"}, "owner": {"type": "User"}}},
-    "Cat": {"kind": "object", "interfaces": ["Animal"], "fields": {"name": {"type": "String"}, "lives": {"type": "Int"}, "owner": {"type": "User"}}},
+    "Animal": {"kind": "interface", "fields": {"name": {"type": "String"}, "owner": {"type": "User"},
+                                                "sound": {"type": "Int", "args": {"times": {"type": "Int", "default": 1}, "loud": {"type": "Boolean"}}}}},
+    "Dog": {"kind": "object", "interfaces": ["Node", "Animal"], "fields": {"id": {"type": "ID"}, "name": {"type": "String"}, "barks": {"type": "Boolean"}, "owner": {"type": "User"},
+                                                                                  "sound": {"type": "Int", "args": {"times": {"type": "Int", "default": 2}, "loud": {"type": "Boolean", "default": True}}}}},
+    "Cat": {"kind": "object", "interfaces": ["Animal"], "fields": {"name": {"type": "String"}, "lives": {"type": "Int"}, "owner": {"type": "User"},
+                                                               "sound": {"type": "Int", "args": {"times": {"type": "Int", "default": 3}, "loud": {"type": "Boolean"}, "extra": {"type": "Int", "default": 100}}}}},
     "Pet": {"kind": "union", "members": ["Dog", "Cat"]},
     "Role": {"kind": "enum", "values": {"ADMIN": 1, "USER": "u"}},
     "Date": {"kind": "scalar", "serialize": lambda v: "D:%s" % (v,)},
@@ -46,6 +49,8 @@ FNS = {
     ("Mutation", "bump"): lambda root, args: args["by"] + 1,
     ("User", "scaled"): lambda root, args: root["base_score"] * args["by"],
     ("Query", "req"): lambda root, args: args["n"] + args["m"] + len(args["l"]),
+    ("Dog", "sound"): lambda root, args: (args.get("times") or 0) * 10 + (1 if args.get("loud") else 0) + args.get("extra", 0),
+    ("Cat", "sound"): lambda root, args: (args.get("times") or 0) * 10 + (1 if args.get("loud") else 0) + args.get("extra", 0),
 }
 
 
@@ -84,7 +89,9 @@ FAILS = ((), (("User", "name"),), (("User", "age"),), (("Query", "me"),), (("Dog
 _BASE = {"Int": Int, "String": String, "Boolean": Boolean, "ID": ID, "Float": Float}
 
 
-def build_real_schema(fail=(), directives=None):
+def build_real_schema(fail=(), directives=None, shared_error=False):
+    """shared_error: every failing resolver raises the SAME ResolverError instance (a module-level constant in user code)"""
+    the_error = ResolverError("resolver failed")
     """the same schema as py_gql objects; resolvers: default (mapping lookup) except FNS and failing fields"""
     fail = set(fail)
     types = {}
@@ -102,7 +109,7 @@ def build_real_schema(fail=(), directives=None):
     def resolver_for(tname, fname):
         if (tname, fname) in fail:
             def failing(root, ctx, info, **args):
-                raise ResolverError("resolver failed")
+                raise the_error if shared_error else ResolverError("resolver failed")
             return failing
         fn = FNS.get((tname, fname))
         if fn is not None:
@@ -165,5 +172,8 @@ TEMPLATES = (
     # nested lists (of scalars with an empty and a null inner list, of objects with a null item), lists of enums and of a custom scalar
     ("{ matrix grid { name best { name } } roles dates }", {}),
     ("{ grid { ...G } m2: matrix } fragment G on User { id friends { name } }", {}),
+    # ONE field node executed under several runtime object types whose definitions of the field differ in argument defaults / extra arguments
+    ("{ animals { name sound } pets { ... on Animal { s2: sound(loud: false) } } }", {}),
+    ("query ($t: Int) { animals { sound(times: $t) ...A } } fragment A on Animal { owner { pet { ... on Animal { sound } } } }", {}),
 )
 OPNAMES = {18: "B"}
